@@ -70,7 +70,18 @@ func st(op string, a ...int) sim.Step {
 	return s
 }
 
-func genStep(t *rapid.T, persistent bool) sim.Step {
+// noise draws a few network faults (loss, reordering, delay) to put between
+// the proposals of a fragment.
+func noise(t *rapid.T) []sim.Step {
+	var out []sim.Step
+	for i := rapid.IntRange(0, 4).Draw(t, "noise"); i > 0; i-- {
+		k := rapid.SampledFrom([]string{"deliver", "deliver", "deliver", "drop", "drop", "dup", "defer", "hold", "hold", "tick"}).Draw(t, "nop")
+		out = append(out, st(k, rapid.IntRange(0, 7).Draw(t, "nk"), rapid.IntRange(0, 3).Draw(t, "nb")))
+	}
+	return out
+}
+
+func genStep(t *rapid.T, persistent, admin bool) sim.Step {
 	kinds := []string{
 		"pump", "pump", "pump",
 		"deliver", "deliver", "deliver", "deliver", "deliver",
@@ -78,16 +89,22 @@ func genStep(t *rapid.T, persistent bool) sim.Step {
 		"drop", "dup", "defer", "defer",
 		"prewrite", "prewrite", "prewrite", "commit", "commit", "commit",
 		"isolate", "heal", "campaign", "transfer", "sleep",
+		"hold", "hold", "release",
 	}
-	if persistent {
+	if persistent && !admin {
 		kinds = append(kinds, "restart")
+	}
+	if admin {
+		kinds = append(kinds, "split")
 	}
 	k := rapid.SampledFrom(kinds).Draw(t, "op")
 	switch k {
 	case "pump":
 		return st(k, rapid.IntRange(0, 60).Draw(t, "n"))
-	case "deliver", "drop", "dup", "defer":
+	case "deliver", "drop", "dup", "defer", "hold":
 		return st(k, rapid.IntRange(0, 11).Draw(t, "k"))
+	case "split":
+		return st(k, rapid.IntRange(0, 1).Draw(t, "r"))
 	case "tick":
 		return st(k, rapid.IntRange(0, 3).Draw(t, "s"), rapid.IntRange(0, 5).Draw(t, "n"))
 	case "prewrite":
@@ -119,10 +136,37 @@ func genStep(t *rapid.T, persistent bool) sim.Step {
 // fragment draws one of the scenario skeletons the property's quantifier names
 // ("proposals arriving at different leaders over time", leader change while a
 // proposal is in flight, restart with entries in flight).
-func fragment(t *rapid.T, regions int, persistent bool) []sim.Step {
+func fragment(t *rapid.T, regions int, persistent, admin bool) []sim.Step {
 	r := rapid.IntRange(0, regions-1).Draw(t, "fr")
 	some := rapid.IntRange(0, 3).Draw(t, "some")
-	switch rapid.IntRange(0, 5).Draw(t, "frag") {
+	pick := rapid.IntRange(0, 5).Draw(t, "frag")
+	if admin && rapid.IntRange(0, 1).Draw(t, "adm") == 0 {
+		pick = 6 + rapid.IntRange(0, 1).Draw(t, "admfrag")
+	}
+	if pick == 3 && (admin || !persistent) {
+		pick = 9 // no restarts in this case
+	}
+	switch pick {
+	case 6: // a write and a range change travel through the log together while the network misbehaves:
+		// replicas may learn about the two commits in one Ready or in two
+		out := []sim.Step{st("prewrite", 3, r, -1)}
+		if some == 0 {
+			out = append(out, st("prewrite", 3, r, -1))
+		}
+		out = append(out, st("split", r))
+		out = append(out, noise(t)...)
+		out = append(out, st("pump", rapid.IntRange(0, 12).Draw(t, "p1")))
+		out = append(out, noise(t)...)
+		out = append(out, st("pump", 80), st("release"), st("tick", 3, 2), st("pump", 80))
+		return out
+	case 7: // the range change first, then a write that still carries the old epoch
+		out := []sim.Step{st("split", r), st("prewrite", 3, r, -1)}
+		out = append(out, noise(t)...)
+		out = append(out, st("pump", rapid.IntRange(0, 12).Draw(t, "p1")))
+		out = append(out, noise(t)...)
+		return append(out, st("pump", 80), st("release"), st("tick", 3, 2), st("pump", 80), st("prewrite", 3, r, -1), st("pump", 60))
+	case 9:
+		return []sim.Step{st("prewrite", 3, r, -1), st("campaign", 5, r), st("pump", 60)}
 	case 0: // the leader is cut off with an un-replicated proposal, a new leader takes proposals
 		out := []sim.Step{st("prewrite", 3, r, -1)}
 		for i := 0; i < some; i++ {
@@ -141,9 +185,6 @@ func fragment(t *rapid.T, regions int, persistent bool) []sim.Step {
 	case 2: // leader transfer with a proposal in flight
 		return []sim.Step{st("prewrite", 3, r, -1), st("transfer", r, 5+some%2), st("pump", 60), st("prewrite", 3, r, -1), st("pump", 60)}
 	case 3: // restart of the leader with a proposal in flight, then a new proposal
-		if !persistent {
-			return []sim.Step{st("prewrite", 3, r, -1), st("campaign", 5, r), st("pump", 60)}
-		}
 		return []sim.Step{st("prewrite", 3, r, -1), st("restart", 3, r), st("campaign", 3+some, r), st("pump", 60),
 			st("prewrite", 3, r, -1), st("pump", 60)}
 	case 4: // plain progress: write and commit
@@ -181,14 +222,18 @@ func gen(t *rapid.T) Case {
 		c.TolerateReplay = true
 		c.Excluded++
 	}
+	// Range changes (splits through the raft log) and restarts are not mixed: a
+	// restarted peer re-applies its log (C22-restart-reapplies-log /
+	// C24-restart-replays-admin) and a re-applied split fails, which wedges the peer.
+	admin := !persistent || rapid.IntRange(0, 1).Draw(t, "admin") == 0
 	n := rapid.IntRange(3, 40).Draw(t, "blocks")
 	for i := 0; i < n; i++ {
 		if rapid.IntRange(0, 2).Draw(t, "kind") == 0 {
-			c.Steps = append(c.Steps, fragment(t, c.Regions, persistent)...)
+			c.Steps = append(c.Steps, fragment(t, c.Regions, persistent, admin)...)
 		} else {
 			k := rapid.IntRange(1, 8).Draw(t, "run")
 			for j := 0; j < k; j++ {
-				c.Steps = append(c.Steps, genStep(t, persistent))
+				c.Steps = append(c.Steps, genStep(t, persistent, admin))
 			}
 		}
 	}
